@@ -561,8 +561,10 @@ CLAUSE_PROPS = {
 }
 
 
-def run(rep, tier, clauses, which="rules"):
+def run(rep, tier, clauses, which="rules", only=None):
     cases = _cases(tier) if which == "rules" else _index_cases()
+    if only:      # a property that needs one family only (label prefixes)
+        cases = [c for c in cases if any(c["label"].startswith(p_) for p_ in only)]
     rep.bound(f"E4 exact runs ({which}): {len(cases)} enumerated call configurations (see contracts/rules_exact.py), array sizes <= 3 per axis "
               f"(quick) / ranks <= 3; exact in all real values at each shape")
     rep.assume("sympy fraction-field arithmetic and its .diff are exact; NumPy's object-array kernels apply the same index algebra as its float kernels")
